@@ -16,7 +16,7 @@ theorem freshReq_newReq (kind stars group sp remaining items nc) :
 /-- registering a request whose own books are balanced -/
 theorem tame_register (p : Pool) (r : Req) (hr : FreshReq r) : Tame p (p.register r) := by
   refine ⟨⟨rfl, rfl, rfl, rfl, rfl, rfl, rfl, fun h => h, ?_, fun _ tk' h => ⟨tk', h, rfl⟩, rfl,
-    fun h => h.of_soft rfl rfl rfl (fun _ tk' h => ⟨tk', h, rfl⟩)⟩, by simp [register, emitRef], ?_⟩
+    fun h => h.of_soft rfl rfl rfl (fun _ tk' h => ⟨tk', h, rfl⟩), fun h => h.of_eq rfl rfl, rfl⟩, by simp [register, emitRef], ?_⟩
   · show (flat (addGroupIfMissing p.groups r.group)).Sublist (flat p.groups)
     rw [flat_addGroupIfMissing]; exact List.Sublist.refl _
   · intro m r' h
